@@ -7,6 +7,7 @@ import (
 	"io"
 	"io/ioutil"
 	"math/rand"
+	"strings"
 
 	"github.com/TheCacophonyProject/thermal-recorder/headers"
 	yaml "gopkg.in/yaml.v1"
@@ -160,8 +161,16 @@ func init() {
 		}
 		for i := 0; i < n; i++ {
 			in := hdrGen(rng, i)
-			o, ch := hdrRun(in)
 			tags := []string{}
+			if i < 4 {
+				// a header line whose length is at / next to the reader's buffer size (4096): "Firmware: " + value + newline
+				in.Desc.Firmware = strings.Repeat("f", 4084+i)
+				if in.Chunks[0] == 1 {
+					in.Chunks = []int{4096, 7}
+				}
+				tags = append(tags, "line-of-buffer-size")
+			}
+			o, ch := hdrRun(in)
 			if len(ch) > 3 {
 				tags = append(tags, "split-into>3-reads")
 			}
